@@ -131,3 +131,62 @@ def run(repo: Repo, chk: Check) -> None:
                 callers.add(fi.qualname)
     chk.ob('R-FLOW', f'{CTX}.get_counter', callers <= {f'{G}.fill'}, 'only fill draws counters from the cache', '', {'callers': sorted(callers)},
            what=f'counters are drawn from the cache by {sorted(callers)}')
+
+
+    # ---- 4 the mempool offset is the number of pending CONTENTS of the account (each one consumes a counter) -----------------------------------
+    chk.set_clause('C25.4')
+    _offset_clause(repo, chk)
+
+
+class _MempoolHooks(GroupHooks):
+    def __init__(self, repo, mempool):
+        super().__init__(repo)
+        self.mempool = mempool
+
+    def inline(self, it, fi):
+        return fi.qualname == f'{CTX}.get_counter_offset'
+
+    def attr(self, it, obj, name, node):
+        if isinstance(obj, Obj) and obj.cls == CTX and name in ('key', 'shell'):
+            return Sym(name)
+        return NotImplemented
+
+    def call(self, it, callee, args, kwargs, node):
+        if isinstance(callee, App) and callee.op == 'attr':
+            recv, name = callee.args
+            if name == 'public_key_hash':
+                return 'tz1me'
+            if name == 'pending_operations':
+                import copy
+                return copy.deepcopy(self.mempool)
+            if name in ('debug', 'info', 'warning'):
+                return None
+        return super().call(it, callee, args, kwargs, node)
+
+    def name(self, it, name, node):
+        if name == 'logger':
+            return Sym('logger')
+        return NotImplemented
+
+
+def _offset_clause(repo: Repo, chk: Check) -> None:
+    fi = repo.func(f'{CTX}.get_counter_offset')
+    mine, other = {'kind': 'transaction', 'source': 'tz1me'}, {'kind': 'transaction', 'source': 'tz1other'}
+    cases = [
+        ('empty mempool', {'applied': [], 'unprocessed': []}, 0),
+        ('one applied group with one content of the account', {'applied': [{'contents': [dict(mine)]}], 'unprocessed': []}, 1),
+        ('one applied batch with three contents of the account', {'applied': [{'contents': [dict(mine), dict(mine), dict(mine)]}], 'unprocessed': []}, 3),
+        ('a batch mixing accounts', {'applied': [{'contents': [dict(mine), dict(other), dict(mine)]}], 'unprocessed': []}, 2),
+        ('only other accounts', {'applied': [{'contents': [dict(other)]}, {'contents': [dict(other), dict(other)]}], 'unprocessed': []}, 0),
+        ('an unprocessed entry given as [hash, operation]', {'applied': [], 'unprocessed': [['oo1', {'contents': [dict(mine), dict(mine)]}]]}, 2),
+        ('applied and unprocessed together', {'applied': [{'contents': [dict(mine)]}, {'contents': [dict(mine), dict(other)]}],
+                                                'unprocessed': [['oo1', {'contents': [dict(mine)]}]]}, 3),
+        ('sections missing from the reply', {}, 0),
+        ('contents without a source (consensus operations)', {'applied': [{'contents': [{'kind': 'endorsement'}]}]}, 0),
+    ]
+    for what, mempool, want in cases:
+        res = Interp(repo, _MempoolHooks(repo, mempool), max_depth=2).run_method(fi, lambda: (Obj(CTX, {}), [], {}))
+        got = [p.value if p.outcome == 'return' else f'{p.outcome}:{vrepr(p.value)[:60]}' for p in res]
+        chk.ob('R-TEMPLATE', fi.qualname, got == [want], f'{what}: offset {want}', fi.loc, {'offset': [vrepr(g) for g in got]},
+               what=f'get_counter_offset with {what} returns {got}, the account has {want} pending contents (each takes one counter): the next operation '
+                    f'would reuse or skip a counter')
